@@ -14,6 +14,7 @@ import (
 	"sort"
 	"strings"
 	"sync"
+	"sync/atomic"
 	"testing"
 	"time"
 
@@ -33,6 +34,10 @@ type c06Case struct {
 	CutLink int    `json:"cut_link"`
 	CutDir  string `json:"cut_dir"`
 	CutAt   int    `json:"cut_at"`
+	// forced schedule: the n-th asynchronous handler dispatch (handlerStore.forEach starts a goroutine per lifecycle event) is held back
+	// for HoldMs of virtual time before it runs its handlers (0 = none). A goroutine that starts late is an ordinary schedule.
+	HoldDispatch int `json:"hold_dispatch"`
+	HoldMs       int `json:"hold_ms"`
 }
 
 func (c c06Case) class() string {
@@ -88,6 +93,14 @@ func evalC06(c c06Case) (f *Failure, nontrivial bool, out c06Result) {
 	}
 	nsNames := []string{"/", "/n2"}[:c.Namespaces]
 	msg := runRig(rigOpts{PingInterval: 2 * time.Second, PingTimeout: time.Second, ConnectTimeout: 3 * time.Second, UpgradeTimeout: 2 * time.Second}, func(r *rig) {
+		if c.HoldDispatch > 0 {
+			var dispatches atomic.Int64
+			r.setPoint(func(site string) {
+				if site == "handlerStore.forEach:async" && dispatches.Add(1) == int64(c.HoldDispatch) {
+					time.Sleep(time.Duration(c.HoldMs) * time.Millisecond)
+				}
+			})
+		}
 		start := time.Now()
 		var mu sync.Mutex
 		socks := map[sio.SocketID]*c06Sock{}
@@ -534,7 +547,8 @@ func TestC06_CausesByPhases(t *testing.T) {
 	setT(t)
 	defer startWatchdog(t, 90*time.Second)()
 	ev := NewEv(t, "C06", c06Check, "rapid over termination cause {client Disconnect, Manager.Close, server Disconnect(false|true), DisconnectSockets(false|true), Server.Close, cut, black-hole} x phase {while "+
-		"connecting, while a namespace middleware runs, connected idle, inside a burst both ways, during the upgrade} x transport x 1-2 namespaces x optional second cause at the same instant; verdict taken "+
+		"connecting, while a namespace middleware runs, connected idle, inside a burst both ways, during the upgrade} x transport x 1-2 namespaces x optional second cause at the same instant x optionally one "+
+		"asynchronous lifecycle-handler dispatch held back for 1 / 50 / 700 ms (yield hook); verdict taken "+
 		"before teardown, 25 virtual seconds after the cause: per server socket either alive (listed and its client answers an ack round trip) or ended (disconnect handler exactly once, disconnecting "+
 		"before it, reason admissible for the cause, not listed, in no room, unknown to the adapter); listed sockets <= live clients; client sockets report once; old Engine.IO "+
 		"sid answers 400 code 1; non-trivial = cause during connect / middleware / burst / upgrade, or two causes at once")
@@ -550,6 +564,10 @@ func TestC06_CausesByPhases(t *testing.T) {
 			if c.Cause2 == c.Cause {
 				c.Cause2 = ""
 			}
+		}
+		if rapid.IntRange(0, 2).Draw(t, "hold") == 0 {
+			c.HoldDispatch = rapid.IntRange(1, 24).Draw(t, "holdDispatch")
+			c.HoldMs = rapid.SampledFrom([]int{1, 50, 700}).Draw(t, "holdMs")
 		}
 		if c.Phase == "connecting" && (c.Cause == "blackhole" || c.Cause2 == "blackhole") {
 			// a black-holed dial keeps Manager.connectMu for as long as the dial hangs; a second socket's pending open then waits for that
